@@ -1262,8 +1262,8 @@ def run(ctx):
         specs = [("simple", "q", 6), ("bbmd", "q0", 25), ("bbmd", "q1", 25), ("foreign", "q0", 25),
                  ("foreign", "q1", 25)] + [("world", "q%d" % i, 14) for i in range(11)]
     else:
-        specs = [("simple", "t", 60)] + [("bbmd", "t%d" % i, 150) for i in range(6)] + \
-                [("foreign", "t%d" % i, 150) for i in range(6)] + [("world", "t%d" % i, 170) for i in range(32)]
+        specs = [("simple", "t", 60)] + [("bbmd", "t%d" % i, 120) for i in range(5)] + \
+                [("foreign", "t%d" % i, 120) for i in range(5)] + [("world", "t%d" % i, 120) for i in range(32)]
     core.run_shards(ctx, "harness.c13", "shard", specs)
 
 
